@@ -118,6 +118,7 @@ static int vl_il_elementAt(KSI_LIST(KSI_Integer) *l, size_t pos, KSI_Integer **o
 /* INT-12: the previous chain's index list is the current one's plus one element; the common positions are compared by
  * vl_il_elementAt */
 #define VL_SLOT_BODY(S) \
+	__CPROVER_assert(g_vl_calls < 2 || (g_vi_calls == g_vl_il_len[1 - (S)] && !g_vi_prev_fetched), "protocol: all common index positions of the previous pair were compared"); \
 	g_vl_il_len[S] = nondet_size() & VL_MAX_LIST; \
 	g_vi_calls = 0; g_vi_prev_fetched = 0; \
 	if (g_vl_calls > 0 && !spec_index_len_extends(g_vl_il_len[1 - (S)], g_vl_il_len[S])) g_vl_fail = 1;
